@@ -258,7 +258,9 @@ def run_descriptor_case(case, g, tier, res, on_path):
                     if isinstance(it, str):
                         out.append(it)
                     elif isinstance(it, Num):
-                        out.append(repr(float(c.eval_in(mv, it.v))))
+                        from symx.symstr import render_num
+
+                        out.append(render_num(it, c.eval_in(mv, it.v)))
                     else:
                         out.append(chr(c.eval_in(mv, SymInt(it.e))))
                 t = "".join(out)
@@ -357,7 +359,9 @@ def run_structure_case(case, g, tier, res, on_path):
                         out.append(it)
                     elif isinstance(it, Num):
                         v = c.eval_in(mv, it.v)
-                        out.append(str(int(v)) if it.kind == "int" else repr(float(v)))
+                        from symx.symstr import render_num
+
+                        out.append(render_num(it, v))
                     else:
                         out.append(chr(c.eval_in(mv, SymInt(it.e))))
                 t = "".join(out)
